@@ -1410,9 +1410,8 @@ example : I2N.Trav.Term.rankedB gRoot2 = true ∧ edgeSymB gRoot2 = true ∧ I2N
     I2N.Trav.Fair2.resultBoundB gRoot2 = 15 := by decide +kernel
 
 /-- worker 0 enters the creation pre-step of its root at time 0, worker 1 finds the class of the roots occupied and sleeps
-0.1 s, then worker 0 ticks (the pre-step has not reported; each tick is due 30 s later) while worker 1 keeps waking up and
-going back to sleep in between is NOT decidable (a second sleep evaluates a `Float` comparison), so the run stops after the
-first tick -/
+0.1 s, then worker 0 ticks (the pre-step has not reported; the tick sleeps 30 s).  The run stops there: the next resume would
+be a second sleep of worker 1, which evaluates a `Float` comparison the kernel cannot decide -/
 def timedRunOfGRoot2 : List I2N.Trav.Fair.TStepN :=
   [((0, ⟨none, 0⟩, 222), 10), ((1, ⟨none, 0⟩, 222), 10), ((0, ⟨none, 0⟩, 222), 3000)]
 
